@@ -851,11 +851,12 @@ protected:
       }
 
       std::size_t requestEndPos;
+      std::string decodedBody; // chunked requests: body with the transfer coding removed
 
       if (isChunked)
       {
         // Handle chunked encoding
-        requestEndPos = findChunkedRequestEnd(dataStr, headerEnd + 4);
+        requestEndPos = findChunkedRequestEnd(dataStr, headerEnd + 4, &decodedBody);
         if (requestEndPos == CHUNKED_MALFORMED)
         {
           // Invalid chunk framing can never become a valid message: reject (close)
@@ -881,8 +882,12 @@ protected:
         requestEndPos = totalExpectedLength;
       }
 
-      // Extract complete request
-      std::string requestData = dataStr.substr(0, requestEndPos);
+      // Extract complete request. A chunked body is handed on DECODED (header
+      // block + chunk data): HttpRequest::fromWireFormat takes everything after the
+      // header block as the body, so the handler used to receive the raw chunk-size
+      // lines, CRLFs and trailers instead of the payload.
+      std::string requestData =
+        isChunked ? dataStr.substr(0, headerEnd + 4) + decodedBody : dataStr.substr(0, requestEndPos);
 
       // Remove processed data from buffer
       dataStr = dataStr.substr(requestEndPos);
@@ -1400,10 +1405,16 @@ protected:
 
   /// \brief Find the end of a chunked request body (RFC 9112 §7.1). Returns the
   /// offset one past the message, std::string::npos if more data is needed, or
-  /// CHUNKED_MALFORMED if the chunk framing is invalid.
-  std::size_t findChunkedRequestEnd(const std::string &data, std::size_t bodyStart) const
+  /// CHUNKED_MALFORMED if the chunk framing is invalid. If \p decodedBody is
+  /// given it receives the chunk data with the transfer coding removed.
+  std::size_t findChunkedRequestEnd(const std::string &data, std::size_t bodyStart,
+                                    std::string *decodedBody = nullptr) const
   {
     std::size_t pos = bodyStart;
+    if (decodedBody)
+    {
+      decodedBody->clear();
+    }
 
     while (pos < data.length())
     {
@@ -1482,6 +1493,10 @@ protected:
       {
         iora::core::Logger::error("HttpServer: Chunk data is not followed by CRLF");
         return CHUNKED_MALFORMED;
+      }
+      if (decodedBody)
+      {
+        decodedBody->append(data, pos, chunkSize);
       }
       pos += chunkSize + 2;
     }
